@@ -1,7 +1,8 @@
 import Dasp.Driver.Loop
+import Dasp.Driver.Types
 open Dasp.Driver
 
--- stub: replaced when property C15 is wired in
 def main : IO Unit := runDriver fun
+  | "ty" :: rest => tyLine rest
   | [] => ""
   | _ => "bad-op"
